@@ -57,6 +57,22 @@ def f32_round(x):
     return struct.unpack('<f', struct.pack('<f', x))[0]
 
 
+def f32_from_decimal(text):
+    """the f32 nearest to the *decimal* written (one rounding, ties to even) - what rustc and str::parse::<f32> produce.
+    Going through a Python float first rounds twice and is wrong for decimals just off an f32 midpoint."""
+    from fractions import Fraction
+    x = Fraction(text.replace('_', ''))
+    approx = f32_round(float(x))
+    bits = struct.unpack('<I', struct.pack('<f', approx))[0]
+    cands = []
+    for b in (bits - 1, bits, bits + 1):
+        if 0 <= (b & 0x7fffffff) < 0x7f800000:
+            v = struct.unpack('<f', struct.pack('<I', b & 0xffffffff))[0]
+            cands.append((abs(Fraction(v) - x), b & 1, v))
+    cands.sort(key=lambda c: (c[0], c[1]))
+    return cands[0][2]
+
+
 # --------------------------------------------------------------------------
 # bound spellings: (text, value, form)   form: 'lit' | 'expr' | 'call'
 # --------------------------------------------------------------------------
@@ -1301,6 +1317,11 @@ def build(tier='quick', seed=0):
     full.append(X(decl('string', 'String', sanitizers=[S('trim')], validators=[V('not_empty')], derives=['Debug', 'TryFrom', 'AsRef'], tags=['forms']),
                   post_attrs=['#[doc(hidden)]']))
 
+    # f32 literal bounds just off the midpoint of two adjacent f32 values: decimal -> f64 -> f32 rounds to the wrong neighbour
+    for kind, text in (('less', '1.00000005960464478'), ('greater_or_equal', '1.00000005960464478'), ('less', '9007199791611905'),
+                       ('greater', '0.100000001490116119384765625'), ('less_or_equal', '16777217.0000000000000001')):
+        full.append(decl('float', 'f32', validators=[V(kind, text, f32_from_decimal(text), 'lit')], derives=['Debug', 'TryFrom', 'FromStr'], tags=['midpoint']))
+
     # declarations produced by a user's macro_rules!: the bound is an `expr` fragment whose top-level operator binds weaker
     # than the `+ 1` / `- 1` the Arbitrary template appends, or than a unary minus
     for t in ['u8', 'i32']:
@@ -1407,6 +1428,22 @@ def build(tier='quick', seed=0):
         d['name'] = f'B{i:04d}'
     crates['cbare'] = {'features': [], 'std': True, 'bare': True, 'edition': '2018',
                        'prelude': PRELUDE_STD + extra + numeric_prelude(), 'decls': bare}
+    # a std user crate that depends on nutype with default-features = false: the generator's `std` feature is off, the
+    # user's crate is an ordinary std crate (String newtypes included)
+    nsf = []
+    for d in full:
+        if len(nsf) >= (300 if thorough else 110):
+            break
+        if d.get('split') or d.get('via_macro') or 'JsonSchema' in d['derives'] or d['new_unchecked'] is False and False:
+            continue
+        if d['family'] == 'string' and ({'single', 'spelling', 'order', 'sanitize', 'custom', 'default', 'forms', 'trivial'} & set(d['tags'])) and len([x for x in nsf if x['family'] == 'string']) < (150 if thorough else 60):
+            nsf.append(copy.deepcopy(d))
+        elif d['family'] != 'string' and ({'pair', 'custom', 'default', 'sanitize', 'predicate'} & set(d['tags'])) and len([x for x in nsf if x['family'] != 'string']) < (150 if thorough else 50):
+            nsf.append(copy.deepcopy(d))
+    for i, d in enumerate(nsf):
+        d['name'] = f'F{i:04d}'
+    crates['cnsf'] = {'features': ['serde', 'arbitrary', 'new_unchecked', 'regex'], 'std': True, 'macro_std': False,
+                      'prelude': PRELUDE_STD + PRELUDE_REGEX + PRELUDE_TRICKY + extra + numeric_prelude(), 'decls': nsf}
     crates['cnostd'] = {'features': ['serde', 'arbitrary'], 'std': False,
                         'prelude': PRELUDE_NOSTD + numeric_prelude(), 'decls': nostd}
     return crates
